@@ -2137,6 +2137,63 @@ func c05r10(c *RC) {
 		})
 	}
 	c.Floor("input-wiring loops over a task's dependencies", n, 2)
+	// every slot of a dependency's reader queue is filled: in the loops over
+	// [0, dep.NumTask()) that build a multi-reader, each iteration that stays in
+	// the function assigns <reader>.q[j]
+	m := 0
+	for _, fn := range pr.FuncsIn("exec") {
+		if fn.Body == nil || fn.Parent != nil {
+			continue
+		}
+		fq := fn.QName()
+		inspectNoLit(fn.Body, func(nd ast.Node) bool {
+			fs, ok := nd.(*ast.ForStmt)
+			if !ok || fs.Cond == nil || fs.Init == nil {
+				return true
+			}
+			init, ok := fs.Init.(*ast.AssignStmt)
+			if !ok || len(init.Lhs) != 1 {
+				return true
+			}
+			iv := expr(init.Lhs[0])
+			be, ok := fs.Cond.(*ast.BinaryExpr)
+			if !ok || be.Op != token.LSS || expr(be.X) != iv {
+				return true
+			}
+			k, ok := ast.Unparen(be.Y).(*ast.CallExpr)
+			if !ok || fn.Pkg.CalleeName(k) != "exec.TaskDep.NumTask" {
+				return true
+			}
+			// does the body fill a queue slot at all?
+			isSlot := func(st ast.Stmt) bool {
+				as, ok := st.(*ast.AssignStmt)
+				if !ok || len(as.Lhs) != 1 {
+					return false
+				}
+				ix, ok := as.Lhs[0].(*ast.IndexExpr)
+				if !ok || expr(ix.Index) != iv {
+					return false
+				}
+				se, ok := ix.X.(*ast.SelectorExpr)
+				return ok && pr.fieldQName(fn.Pkg.FieldOf(se)) == "exec.multiReader.q"
+			}
+			any := false
+			inspectNoLit(fs.Body, func(mm ast.Node) bool {
+				if st, ok := mm.(ast.Stmt); ok && isSlot(st) {
+					any = true
+				}
+				return true
+			})
+			if !any {
+				return true
+			}
+			m++
+			c.Check(mustReach(fs.Body.List, isSlot), fq+"|every-queue-slot-is-filled", pr.Pos(fs.Pos()),
+				strings.TrimPrefix(fq, "exec.")+" can finish an iteration of its loop over a dependency's tasks without storing a reader in that task's slot of the multi-reader queue: the slot stays nil and the first read of the dependency crashes the task (or, with Expand, a nil reader is handed to the operator)")
+			return true
+		})
+	}
+	c.Floor("loops that fill a dependency's reader queue", m, 2)
 }
 
 // blockSkips: the block ends in continue or break (it leaves the iteration
